@@ -17,7 +17,7 @@ EXPLANATION = (
     "own timer callback, entry popped from the queue, or an explicit cancel / carried-over-only registry); R-LOSS - the "
     "loss closure stops/cancels and clears every handle location before returning to IDLE on every path; fired handles - "
     "a timer callback that leaves its own handle stored while later code cancels it without .active(); keepalive 0 arms no "
-    "keepalive timer. Decides these structural clauses; silence over virtual time is not observed.")
+    "keepalive timer. R-LOSS also: a cancel() on a handle that can be None whose AttributeError is swallowed by a handler around the loop (or in front of later cancels) abandons the clean-up - reported here; a try per entry is not. Decides these structural clauses; silence over virtual time is not observed.")
 ASSUMPTIONS = ["DelayedCall.cancel() raises on a call that already fired or was cancelled; LoopingCall.stop() ends the loop"]
 
 
@@ -128,6 +128,16 @@ def check(ctx):
                 if e.kind == "WRITE":
                     ctx.ob("R-LOSS", "%s nothing is written on the loss path" % cq, False, where=where(e), function=e.func,
                            construct="%s/loss/write" % e.func, msg="connectionLost writes to the dead transport")
+        # a cancel() on a handle that can be None whose AttributeError is caught: nothing escapes, but what the exception skips is not done
+        skipped = set()
+        for tr, e, loc, why, skips in hd.none_deref_caught():
+            if skips is None or tr.kind != "LOSS" or (e.func, loc) in skipped:
+                continue
+            skipped.add((e.func, loc))
+            ctx.ob("R-LOSS", "%s loss path cancels every retry alarm" % cq, False, where=where(e), function=e.func,
+                   construct="%s/loss/abandoned-at-none-handle/%s" % (e.func, ".".join(loc)),
+                   msg="%s: cancel() raises AttributeError on it, the handler around it swallows the exception and %s - the retry timers of "
+                       "the entries not reached stay armed and write to the lost transport" % (why, skips))
         # ---------------- fired handles ----------------
         seen = set()
         for ent, p, loc, tr, e in hd.fired_handles():
